@@ -11,9 +11,11 @@ git apply "$bd/patch.diff" || { echo "PATCH DOES NOT APPLY"; exit 8; }
 files=$(git diff --name-only)
 echo "== files: $files"
 echo "== inherited tests"; cargo test -p pilota --offline 2>&1 | grep -E "^test result" | head -1
+case "$files" in *pilota-build*) cargo test -p pilota-build --offline -- --skip test_thrift_workspace_gen --skip test_thrift_workspace_with_split_gen 2>&1 | grep -E "^test result" | head -1;; esac
 props=""
 case "$files" in *prost*) props="C05 C10 C18";; esac
 case "$files" in *thrift*) props="$props C01 C03 C04 C07 C09 C11 C12";; esac
+case "$files" in *pilota-build*) props="$props C06";; esac
 for p in $props; do
   cd $home; VERIF_REPO="$wt" ./check $p > /tmp/benign.$$ 2>&1; ce=$?
   echo "-- $p exit=$ce $(grep -E '^(VIOLATION|OK|NO-VERDICT)' /tmp/benign.$$ | head -1 | cut -c1-200)"
